@@ -689,8 +689,50 @@ fn run_zero_sign_receivers(ctx: &Ctx) -> Report {
     })
 }
 
+// (g) a pause in the feed ---------------------------------------------------------------------------
+/// Twins fed the same stream, one of them with a real pause of 1.1 s in the middle (one sleep for all of
+/// them): outputs may not depend on when the inputs arrive.
+fn run_pause(ctx: &Ctx) -> Report {
+    let mut rep = Report::new();
+    let mut twins: Vec<(Params, Inst, Inst, Vec<Op>)> = Vec::new();
+    for kind in ALL_KINDS {
+        for n in [1usize, 3, 9] {
+            let p = variant(kind, n);
+            let ops = stream(!kind.has_scalar() || n == 3, 3 * n + 12, ctx.seed ^ (n as u64 * 131 + kind as u64));
+            twins.push((p, Inst::new(&p), Inst::new(&p), ops));
+        }
+    }
+    let mut firsts: Vec<Vec<Res>> = Vec::new();
+    for (_, a, b, ops) in twins.iter_mut() {
+        let half = ops.len() / 2;
+        let ra: Vec<Res> = ops.iter().map(|op| a.apply(op)).collect();
+        for op in &ops[..half] {
+            b.apply(op);
+        }
+        firsts.push(ra);
+    }
+    std::thread::sleep(std::time::Duration::from_millis(1100));
+    for (i, (p, _, b, ops)) in twins.iter_mut().enumerate() {
+        let half = ops.len() / 2;
+        for (k, op) in ops[half..].iter().enumerate() {
+            let rb = b.apply(op);
+            rep.evaluations += 1;
+            if !res_bits_eq(&rb, &firsts[i][half + k]) {
+                fail(&mut rep, p, "depends_on_when_inputs_arrive", "pause", format!("{}: after a 1.1 s pause before input {} the output is {:?}, without the pause {:?}", p.label(), half + k + 1, rb, firsts[i][half + k]), &ops[..=half + k], &ops[..=half + k]);
+                break;
+            }
+        }
+        rep.count("pause.twins");
+        rep.distinct_by_construction += 1;
+    }
+    rep
+}
+
 pub fn run(ctx: &Ctx) -> Report {
     let mut rep = Report::new();
+    if ctx.phase_enabled("pause") {
+        rep.merge(run_pause(ctx));
+    }
     if ctx.phase_enabled("zerosign") {
         rep.merge(run_zero_sign_receivers(ctx));
     }
